@@ -149,7 +149,7 @@ Proof.
     apply IHb. apply agree_cur. exact A.
   - intros qk q IHq x lo IHl hi IHh body IHb ch c en A. cbn [pfold eval]. rewrite (IHq None c en A), (IHl None c en A), (IHh None c en A).
     destruct (range_items (eval en lo) (eval en hi)) as [[l n]|]; [|reflexivity].
-    destruct (max_iter <? n); [reflexivity|]. f_equal. apply map_ext. intros k.
+    f_equal. apply map_ext. intros k.
     apply IHb. apply agree_bind; [exact A | intros z E; discriminate].
   - intros qk q IHq x items IHi body IHb ch c en A. cbn [pfold eval]. rewrite (IHq None c en A), (IHi c en A). f_equal. apply map_ext. intros v.
     apply IHb. apply agree_bind; [exact A | intros z E; discriminate].
